@@ -762,9 +762,10 @@ func (x *Exec) trailRun(view StrVal, set [128]bool) *Term {
 	if !x.leadDone[k] {
 		x.leadDone[k] = true
 		i := o.BoundVar("i", o.IdxSort())
-		x.assumeClosed(o.And(o.IdxLe(o.Idx(0), k), o.IdxLe(k, view.Len)))
-		x.assumeClosed(o.Forall([]*Term{i}, o.Implies(o.And(o.IdxLe(o.IdxSub(view.Len, k), i), o.IdxLt(i, view.Len)), x.classTerm(set, o.Select(view.Arr, o.IdxAdd(view.Off, i))))))
-		x.assumeClosed(o.Implies(o.IdxLt(k, view.Len), o.Not(x.classTerm(set, o.SelByte(view.Arr, o.IdxAdd(view.Off, o.IdxSub(o.IdxSub(view.Len, k), o.Idx(1))))))))
+		wf := o.IdxLe(o.Idx(0), view.Len)
+		x.assumeClosed(o.Implies(wf, o.And(o.IdxLe(o.Idx(0), k), o.IdxLe(k, view.Len))))
+		x.assumeClosed(o.Implies(wf, o.Forall([]*Term{i}, o.Implies(o.And(o.IdxLe(o.IdxSub(view.Len, k), i), o.IdxLt(i, view.Len)), x.classTerm(set, o.Select(view.Arr, o.IdxAdd(view.Off, i)))))))
+		x.assumeClosed(o.Implies(o.And(wf, o.IdxLt(k, view.Len)), o.Not(x.classTerm(set, o.SelByte(view.Arr, o.IdxAdd(view.Off, o.IdxSub(o.IdxSub(view.Len, k), o.Idx(1))))))))
 	}
 	return k
 }
@@ -797,7 +798,7 @@ func schemaStringsCompare(x *Exec, st *State, fn *ssa.Function, args []Val, c *s
 func (x *Exec) firstDiff(a, b StrVal) *Term {
 	o := x.o
 	d := o.UF("seq.firstdiff", IntSort, a.Arr, a.Off, a.Len, b.Arr, b.Off, b.Len)
-	o.SetRange(d, big.NewInt(0), big.NewInt(1<<62))
+	o.SetRange(d, big.NewInt(0), big.NewInt(1<<62)) // (a free choice when the views are ill-formed: harmless)
 	if x.fdDone == nil {
 		x.fdDone = map[*Term]bool{}
 	}
@@ -805,10 +806,17 @@ func (x *Exec) firstDiff(a, b StrVal) *Term {
 		x.fdDone[d] = true
 		m := o.Ite(o.Le(a.Len, b.Len), a.Len, b.Len)
 		k := o.BoundVar("k", IntSort)
-		x.assumeClosed(o.And(o.Le(o.Int(0), d), o.Le(d, m),
+		// (stated for well-formed views only: a term built on a path that is not taken may carry a negative length,
+		// and an unconditional fact about it would make the hypotheses inconsistent)
+		wf := o.And(o.Le(o.Int(0), a.Len), o.Le(o.Int(0), b.Len))
+		x.assumeClosed(o.Implies(wf, o.And(o.Le(o.Int(0), d), o.Le(d, m),
 			o.Forall([]*Term{k}, o.Implies(o.And(o.Le(o.Int(0), k), o.Lt(k, d)),
 				o.Eq(o.SelByte(a.Arr, o.IdxAdd(a.Off, k)), o.SelByte(b.Arr, o.IdxAdd(b.Off, k))))),
-			o.Implies(o.Lt(d, m), o.Neq(o.SelByte(a.Arr, o.IdxAdd(a.Off, d)), o.SelByte(b.Arr, o.IdxAdd(b.Off, d))))))
+			o.Implies(o.Lt(d, m), o.Neq(o.SelByte(a.Arr, o.IdxAdd(a.Off, d)), o.SelByte(b.Arr, o.IdxAdd(b.Off, d)))))))
+		// the first difference does not depend on the order of the operands
+		rev := o.UF("seq.firstdiff", IntSort, b.Arr, b.Off, b.Len, a.Arr, a.Off, a.Len)
+		o.SetRange(rev, big.NewInt(0), big.NewInt(1<<62))
+		x.assumeClosed(o.Eq(d, rev))
 	}
 	return d
 }
@@ -838,11 +846,24 @@ func (x *Exec) indexByte(s StrVal, c *Term, last bool) *Term {
 		if last {
 			rng = o.And(o.Le(o.Int(0), k), rng)
 		}
-		x.assumeClosed(o.And(o.Le(o.Int(-1), r), o.Lt(r, s.Len),
+		x.assumeClosed(o.Implies(o.Le(o.Int(0), s.Len), o.And(o.Le(o.Int(-1), r), o.Lt(r, s.Len),
 			o.Implies(o.Le(o.Int(0), r), o.Eq(at(r), c)),
-			o.Forall([]*Term{k}, o.Implies(rng, o.Neq(at(k), c)))))
+			o.Forall([]*Term{k}, o.Implies(rng, o.Neq(at(k), c))))))
+		// a function of the content: equal texts have the same index
+		for _, p := range x.ibApps[name] {
+			x.assumeClosed(o.Implies(o.And(o.Eq(p.c, c), x.seqEq(p.s, s)), o.Eq(p.r, r)))
+		}
+		if x.ibApps == nil {
+			x.ibApps = map[string][]ibApp{}
+		}
+		x.ibApps[name] = append(x.ibApps[name], ibApp{s, c, r})
 	}
 	return r
+}
+
+type ibApp struct {
+	s    StrVal
+	c, r *Term
 }
 
 func schemaIndexByte(last bool) func(x *Exec, st *State, fn *ssa.Function, args []Val, c *ssa.CallCommon) Val {
